@@ -9,6 +9,7 @@ import (
 	"errors"
 	"fmt"
 	"net"
+	"sync"
 	"time"
 
 	"github.com/pion/dtls/v2"
@@ -124,6 +125,12 @@ func (gw *Gateway) ListenAndServe(ctx context.Context, address string) error {
 		RetryCount:            gw.cfg.RetryCount,
 	}
 
+	// The handlers must be given the time to finish (to send DISCONNECT to
+	// their clients, to close the MQTT connections) before we return: the
+	// caller usually exits right afterwards.
+	var handlers sync.WaitGroup
+	defer handlers.Wait()
+
 	for {
 		clientConn, err := snListener.Accept()
 		if err != nil {
@@ -141,7 +148,9 @@ func (gw *Gateway) ListenAndServe(ctx context.Context, address string) error {
 		handlerID := clientConn.RemoteAddr().String()
 		handlerLogger := gw.log.WithTag(fmt.Sprintf("h:%s", handlerID))
 		handler := newHandler(handlerCfg, gw.cfg.PredefinedTopics, handlerLogger)
+		handlers.Add(1)
 		go func() {
+			defer handlers.Done()
 			defer func() {
 				handlerLogger.Debug("Closing MQTT-SN connection")
 				err := clientConn.Close()
